@@ -20,6 +20,7 @@ use sos_core::{
 };
 use std::panic::{catch_unwind, AssertUnwindSafe};
 mod accountops;
+mod devices;
 mod folderops;
 mod integrityops;
 mod kdf;
@@ -325,6 +326,7 @@ fn main() {
         "integrity-ops" => { rt().block_on(integrityops::run(cases, seed)); }
         "kdf" => { kdf::run(cases); }
         "account-ops" => { rt().block_on(accountops::run(cases, seed)); }
+        "device-reducer" => { rt().block_on(devices::run(cases, seed)); }
         "plaintext-scan" => { rt().block_on(folderops::run_scan(cases, seed)); }
         "log-ops" => { rt().block_on(logops::run(cases, seed)); }
         "merge-patches" => { rt().block_on(mergeops::run(cases, seed)); }
